@@ -67,6 +67,18 @@ def step (line : String) : String :=
       | some m, some bv, some bf => showR (metricsTrend (P m) tt bv bf [] []) | _, _, _ => "bad-op"
   | ["chi", m1, m2, x1, x2] => match metric? m1, metric? m2, rats? x1, rats? x2 with
       | some m1, some m2, some x1, some x2 => showR (chi (m1.instances x1) (m2.instances x2)) | _, _, _, _ => "bad-op"
+  | ["chipct", m1, m2, x1, x2] => match metric? m1, metric? m2, rats? x1, rats? x2 with
+      | some m1, some m2, some x1, some x2 => showR (chiPercent (m1.instances x1) (m2.instances x2)) | _, _, _, _ => "bad-op"
+  | ["daysm", col, m, yc, yo, xc, xo] => match metric? m, ints? yc, ints? yo, rats? xc, rats? xo with
+      | some m, some yc, some yo, some xc, some xo =>
+          let d := daysMetrics yc (m.instances xc) yo (m.instances xo)
+          (match col with
+           | "CM" => showR (.ok d.1) | "Obs" => showR (.ok d.2.1) | "Bias" => showR (.ok d.2.2) | _ => "bad-op")
+      | _, _, _, _, _ => "bad-op"
+  | ["frame", nk, n] => match nk.toNat?, n.toNat? with
+      | some nk, some n =>
+          showList (fun r => toString r.1 ++ "." ++ r.2.1) (frameRows (List.range nk) n (fun j => toString j) (fun _ _ => ()))
+      | _, _ => "bad-op"
   | ["cov", x, y] => match rats? x, rats? y with
       | some x, some y => showRat (cov x y) ++ ";" ++ showRat (cov x x) ++ ";" ++ showRat (cov y y) | _, _ => "bad-op"
   | ["mse", a, b] => match rats? a, rats? b with
